@@ -1,15 +1,15 @@
 #!/bin/bash
 # Evaluate a seeded change in isolation (neither /repo nor /verif is touched): a scratch worktree of /repo's
 # HEAD gets the patch, a copy of /verif is pointed at it and its quick checks are run.
-# Usage: eval_iso.sh <patch.diff|none> <Cxx> [<Cyy> ...]     (env EV=/tmp/ev2 scratch root)
+# Usage: eval_iso.sh <patch.diff|none> <Cxx> [<Cyy> ...]     (env EV=/tmp/ev2 scratch root; SRC=/verif the tree of /verif to copy, e.g. an export of a commit)
 set -u
 patch="$1"; shift
-EV=${EV:-/tmp/ev2}; W=$EV/repo; V=$EV/verif
+EV=${EV:-/tmp/ev2}; W=$EV/repo; V=$EV/verif; SRC=${SRC:-/verif}
 mkdir -p $EV
 if [ ! -d $W ]; then git -C /repo worktree add --detach $W HEAD >/dev/null 2>&1 || exit 2; fi
 git -C $W checkout -q --detach $(git -C /repo rev-parse HEAD) && git -C $W checkout -- . && git -C $W clean -fdq
 mkdir -p $V
-rsync -a --delete --exclude /target --exclude /target-tsan --exclude /target-miri --exclude /target-asan --exclude /evidence --exclude /replays --exclude /.git --exclude /seeded /verif/ $V/
+rsync -a --delete --exclude /target --exclude /target-tsan --exclude /target-miri --exclude /target-asan --exclude /evidence --exclude /replays --exclude /.git --exclude /seeded $SRC/ $V/
 sed -i "s#\"/repo/#\"$W/#g" $V/harness/Cargo.toml
 if [ "$patch" != none ]; then git -C $W apply "$patch" || { echo "PATCH DOES NOT APPLY"; exit 2; }; fi
 for p in "$@"; do
